@@ -80,11 +80,11 @@ def unit(ctx):
             u.report(inp, str(got), str(mexp), predicate(a, w, dtype, out))
             if u.bad > 5:
                 break
-        elif w <= len(a):
+        else:
             reason = predicate(a, w, dtype, out)
             if reason:
                 u.report(inp, str(got), str(mexp), "implementation AND model violate the defining formula: " + reason)
-    # the known wide-wing witness (theorem C19_moving_average_is_definition_refuted), evaluated every run
+    # the wide-wing witness of the pinned defect (fixed by /repo 19272a6; C19_moving_average_is_definition_pinned_refuted)
     wa, ww = WITNESS["a"], WITNESS["w"]
     reason = predicate(wa, ww, np.float32, impl(wa, ww, np.float32))
     if reason:
